@@ -22,6 +22,9 @@ EXPRS = {
     "t1_or_t2": {"text": "@t1 or @t2", "nodes": [["lit", 0, 0, "t1"], ["lit", 0, 0, "t2"], ["or", 1, 2, ""]], "root": 3},
     "not_any": {"text": "not (t1 or t2)", "nodes": [["lit", 0, 0, "t1"], ["lit", 0, 0, "t2"], ["or", 1, 2, ""], ["not", 3, 0, ""]], "root": 4},
     "glob": {"text": "t*", "nodes": [["glob", 0, 0, "t"]], "root": 1},
+    "globq": {"text": "t?", "nodes": [["glob", 0, 0, "t"]], "root": 1},
+    "globc": {"text": "@t[12]", "nodes": [["glob", 0, 0, "t"]], "root": 1},
+    "not_globq": {"text": "not t?", "nodes": [["glob", 0, 0, "t"], ["not", 1, 0, ""]], "root": 2},
     "v1": {"text": "-t1,t2", "nodes": [["lit", 0, 0, "t1"], ["not", 1, 0, ""], ["lit", 0, 0, "t2"], ["or", 2, 3, ""]], "root": 4},
     "wip": {"text": "wip", "nodes": [["lit", 0, 0, "wip"]], "root": 1},
     "not_wip": {"text": "not @wip", "nodes": [["lit", 0, 0, "wip"], ["not", 1, 0, ""]], "root": 2},
@@ -62,13 +65,14 @@ def _bg(bg):
 
 
 def cfg(expr="true", stop=False, dry=False, show_skipped=True, cont=False, capture=(True, True, True), wip=False, retry=False,
-        observe=False, async_steps=False, chatty=False, loglevel="", logfilter="", logclear=False, tamper=False):
+        observe=False, async_steps=False, chatty=False, loglevel="", logfilter="", logclear=False, tamper=False, rootlvl0=False):
     """loglevel: --logging-level (DEBUG / INFO / WARNING / ERROR / CRITICAL; "" = not given, behave's default INFO);
     logfilter: --logging-filter (comma separated logger names, a leading '-' excludes);
     wip: --wip (only @wip scenarios, --stop, no capture of stdout and logging);
     logclear: --logging-clear-handlers, the user's own root handler is then installed in before_all;
+    rootlvl0: the before_all hook sets the root logger's level to NOTSET (0);
     tamper: a failing / raising step body first replaces sys.stdout / sys.stderr (if captured) by a forwarding wrapper"""
-    return {"wip": bool(wip), "logclear": bool(logclear), "tamper": bool(tamper), "loglevel": loglevel, "logfilter": logfilter, "observe": bool(observe), "async_steps": bool(async_steps), "chatty": bool(chatty), "expr": expr, "stop": stop, "dry": dry, "show_skipped": show_skipped, "cont": cont, "retry": bool(retry and not dry),
+    return {"rootlvl0": bool(rootlvl0), "wip": bool(wip), "logclear": bool(logclear), "tamper": bool(tamper), "loglevel": loglevel, "logfilter": logfilter, "observe": bool(observe), "async_steps": bool(async_steps), "chatty": bool(chatty), "expr": expr, "stop": stop, "dry": dry, "show_skipped": show_skipped, "cont": cont, "retry": bool(retry and not dry),
             "cap_out": capture[0], "cap_err": capture[1], "cap_log": capture[2]}
 
 
